@@ -142,11 +142,14 @@ var c02InlineFamilies = []c02Family{
 	{"link-tails", []string{"<", ">", "a", " ", "\"", "'", "(", ")", "\\", "\n"}, 5, 6, func(s string) string { return "[a](" + s + ")" }},
 	{"line-breaks", []string{"a", " ", "  ", "\\", "\n", "*", "`"}, 6, 7, nil},
 	{"image-tails", []string{"[", "]", "a", "b", "*", " ", "`", "\""}, 5, 6, func(s string) string { return "![" + s + "](/u \"t\")" }},
+	{"email-domains", []string{"a", "-", ".", "7", "xn--a", "@"}, 5, 6, func(s string) string { return "see <a@" + s + "> now" }},
+	{"email-local-parts", []string{"a", ".", "+", "-", "_", "!", "@", "\\"}, 4, 5, func(s string) string { return "see <" + s + "@a.b> now" }},
+	{"uri-autolinks", []string{"a", "b1", ":", "+", ".", "-", "/", " ", "<", "\\", "&amp;", "%20"}, 4, 5, func(s string) string { return "see <" + s + "> now" }},
 }
 
 var c02InlineTokens = []string{"a", "b", "a", " ", " ", "\n", "  \n", "\\\n", "*", "**", "_", "__", "***", "`", "``", "` ", "[", "]", "](", ")", "(", "![", "!", "][", "[]", "[a]", "[b]", "[a b]", "[A  b]",
 	"(/u)", "(/u \"t\")", "(<u v> 't')", "(u (v))", "(\\()", "<", ">", "<b>", "</b>", "<b c=\"d\">", "<b c='d' e>", "<br/>", "<!-- c -->", "<!-->", "<?p?>", "<!D e>", "<![CDATA[x]]>", "<http://a.b>", "<m@n.o>", "<a:b>",
-	"&amp;", "&#42;", "&#x5B;", "&#0;", "&copy;", "&nope;", "&amp", "\\*", "\\[", "\\]", "\\`", "\\\\", "\\<", "\\&", "\\a", ".", "!", "\"", "'", "é", "“", " ", "£", "-", "#", ":"}
+	"&amp;", "&#42;", "&#x5B;", "&#0;", "&copy;", "&nope;", "&amp", "&nvlt;", "&nvgt;", "&NewLine;", "&Tab;", "&fjlig;", "&bne;", "&lt;", "&quot;", "&nbsp;", "\\*", "\\[", "\\]", "\\`", "\\\\", "\\<", "\\&", "\\a", ".", "!", "\"", "'", "é", "“", " ", "£", "-", "#", ":"}
 
 func runC02Inline(c *core.Ctx, pool *cfg.Pool, specs []cfg.Spec) {
 	for _, f := range c02InlineFamilies {
@@ -162,6 +165,14 @@ func runC02Inline(c *core.Ctx, pool *cfg.Pool, specs []cfg.Spec) {
 			}
 			c02Inline(c, pool, specs[i%2], s, f.name)
 		}
+	}
+	// every HTML5 named character reference as an escape, between two letters and inside a title (the expected expansion
+	// comes from the table of Go's html package, an independent copy of the HTML5 list)
+	for i, name := range wl.EntityNames {
+		if !c.Mine(i) {
+			continue
+		}
+		c02Inline(c, pool, specs[i%2], "x&"+name+"y [l](/u \"&"+name+"\")", "all-named-references")
 	}
 	r := c.Rng
 	for i := c.PerShard(c.N(250000, 10000000)); i > 0; i-- {
